@@ -114,12 +114,22 @@ def gen_case(rng, cfg, idx):
                 st.append(["fail", rng.choice(live_t), rng.choice(arrs)])
             else:   # failure AFTER the kernel ran (result tensor rejected), with a repeated / view / raw-array operand
                 st.append(["fail_late", rng.choice(live_t + arrs), rng.choice(["dtype", "dtype_repeat", "int_const"])])
-        elif r < 0.75 and arrs:
+        elif r < 0.73 and arrs:
             src = rng.choice(arrs)
             v = new("a")
             st.append(["aview", v, src, "full"])
             arrs.append(v)
             shapes[v] = shapes[src]
+        elif r < 0.76 and len(arrs) > 1:
+            # the user drops one of their arrays (often a view) and allocates a fresh one, possibly read-only, right away: CPython hands
+            # out the freed object's address again, so stale id-keyed bookkeeping would now point at an unrelated array
+            x = rng.choice(arrs[1:])
+            arrs.remove(x)
+            st.append(["del", x])
+            a = new("a")
+            st.append(["arr", a, list(shapes[x]), rng.random() < 0.5, "C"])
+            arrs.append(a)
+            shapes[a] = shapes[x]
         elif r < 0.83 and results:
             st.append(["backward", rng.choice(results)])
         elif r < 0.87 and results:
